@@ -104,6 +104,22 @@ def call(f, *a, **k):
         return f"EXC {type(e).__name__}: {e}"
 
 
+def twice(f, *a, **k):
+    """Decode, modify the returned value the way a caller may (it owns it), decode the very same bytes again.
+    The second decoding is what gets compared: it must not depend on what happened to the first result."""
+    first = call(f, *a, **k)
+    if isinstance(first, list):
+        try:
+            first.reverse()
+            first.append(("POISON", True))
+        except Exception:
+            pass
+    second = call(f, *a, **k)
+    if isinstance(first, str) and not isinstance(second, str):
+        return first
+    return second
+
+
 def _js(steps):
     out = []
     for s in steps if isinstance(steps, (list, tuple)) else [steps]:
@@ -135,7 +151,7 @@ def chunk_transform(chunk, acc):
             for term, pad in variants:
                 prog = P.transform_program(steps, terminate=term, pad=pad)
                 exp = P.transform_expected(steps, build0)
-                got = call(fn, prog) if fn else call(beacon.parse_transform_binary, prog, build="id")
+                got = twice(fn, prog) if fn else twice(beacon.parse_transform_binary, prog, build="id")
                 acc.transitions += 1
                 acc.case((rest, build0, term, pad), nontrivial=True, outcome=repr(got)[:120])
                 if got != exp:
@@ -166,14 +182,14 @@ def chunk_recover(chunk, acc):
         n += 1
         for term, pad in ((True, 0), (False, 0), (True, 5))[: 3 if len(steps) <= 2 else 1 + (n % 2)]:
             prog = P.recover_program(steps, terminate=term, pad=pad)
-            got = call(beacon.parse_recover_binary, prog)
+            got = twice(beacon.parse_recover_binary, prog)
             exp = P.recover_expected(steps)
             acc.transitions += 1
             acc.case((rest, term, pad), outcome=repr(got)[:120])
             if got != exp:
                 acc.fail("C03/recover/steps", {"kind": "recover", "steps": _js(steps), "terminate": term, "pad": pad}, _js(exp), _js(got) if not isinstance(got, str) else got)
     blk = tlv.encode([(1, 1, b"\x00\x00"), (11, 3, P.recover_program((first,)).ljust(256, b"\x00"))])
-    got = call(lambda: beacon.BeaconConfig(blk).settings["SETTING_C2_RECOVER"])
+    got = twice(lambda: beacon.BeaconConfig(blk).settings["SETTING_C2_RECOVER"])
     acc.transitions += 1
     acc.case("via-settings")
     if got != P.recover_expected((first,)):
@@ -193,7 +209,7 @@ def chunk_execute(chunk, acc):
         for term in (True, False):
             data = P.execute_list(items, terminate=term)
             exp = P.execute_expected(items)
-            got = call(beacon.parse_execute_list, data)
+            got = twice(beacon.parse_execute_list, data)
             acc.transitions += 1
             acc.case((rest, term), outcome=repr(got)[:120])
             g = [P.norm_exec_name(x) for x in got] if isinstance(got, list) else got
@@ -217,7 +233,7 @@ def chunk_procinj(chunk, acc):
             acc.states += 1
             data = P.procinj_transform(a, p)
             for pad in (0, 3, 256):
-                got = call(beacon.parse_process_injection_transform_steps, data + b"\x00" * pad)
+                got = twice(beacon.parse_process_injection_transform_steps, data + b"\x00" * pad)
                 acc.transitions += 1
                 acc.case((a, p, pad), nontrivial=bool(a or p))
                 exp = [("append", a), ("prepend", p)]
@@ -244,7 +260,7 @@ def chunk_gargle(chunk, acc):
         acc.states += 1
         for term in (True, False):
             data = P.gargle(table, terminate=term)
-            got = call(beacon.parse_gargle, data)
+            got = twice(beacon.parse_gargle, data)
             exp = P.gargle_expected(table)
             acc.transitions += 1
             acc.case((rest, term), nontrivial=bool(exp))
